@@ -114,6 +114,17 @@ pub struct Drv<'a> {
     pub only_op: Option<String>,
 }
 
+/// Property that ledger-raised ownership violations (double destruction, destruction or use of a slot
+/// that holds no live element) are attributed to: C02 states them for every use of the containers, so a
+/// C02 run of this engine claims them; well-formedness findings (`viol`) stay with C04 / C18.
+fn fault_mem_prop(prop: &str) -> &'static str {
+    match prop {
+        "C18" => "C18",
+        "C02" => "C02",
+        _ => "C04",
+    }
+}
+
 fn viol(d: &mut Drv, what: &str, msg: String) {
     let (_, _, op) = ledger::ctx();
     let prop = if d.cx.prop == "C18" { "C18" } else { "C04" };
@@ -936,7 +947,7 @@ impl<'a> Drv<'a> {
             if ledger::viol_total() > 0 || self.failed {
                 let descr = self.descr.clone();
                 let kk = k;
-                let mem_prop = if self.cx.prop == "C18" { "C18" } else { "C04" };
+                let mem_prop = fault_mem_prop(&self.cx.prop);
                 self.cx.rep.absorb_violations(mem_prop, &|| vec![descr.clone(), format!("fault armed at callback tick {} of {} (0 = none)", kk, n)]);
                 self.failed = false;
             }
@@ -1009,7 +1020,7 @@ impl<'a> Drv<'a> {
             if ledger::viol_total() > 0 || self.failed {
                 let descr = self.descr.clone();
                 let kk = k;
-                let mem_prop = if self.cx.prop == "C18" { "C18" } else { "C04" };
+                let mem_prop = fault_mem_prop(&self.cx.prop);
                 self.cx.rep.absorb_violations(mem_prop, &|| vec![descr.clone(), format!("fault armed at callback tick {} of {} (0 = none)", kk, n)]);
                 self.failed = false;
             }
